@@ -49,7 +49,7 @@ BASE = dict(
     tm=False, elitism=True, mutate_elite=True, tsize=2, mut="mixed", ckpt=None, overwrite=False,
     episode_steps=10, eval_steps=3, eval_loop=1, target=None, seed=0, strict=True, fault=None,
     ep_len=7, via="build", timeout=120, ls_spread=0,
-    budgets=None, start_steps=0, start_spread=0, start_hist=False,
+    budgets=None, start_steps=0, start_spread=0, start_hist=False, bs_spread=0, lr_spread=0.0,
 )
 
 LOOP_ALGOS = {
@@ -312,6 +312,20 @@ def _build_population(cfg, E):
     if algo in ("DDPG", "TD3", "MADDPG", "MATD3"):
         over["vect_noise_dim"] = ne
     pop = []
+
+    def hetero(i):
+        """agent i's hyper-parameters: a population as HPO mutations leave it (different learn_step / batch_size / lr)"""
+        o = dict(over)
+        o["learn_step"] = cfg["learn_step"] + i * cfg["ls_spread"]
+        o["batch_size"] = cfg["batch_size"] + i * cfg["bs_spread"]
+        if cfg["lr_spread"]:
+            f = 1.0 + i * float(cfg["lr_spread"])
+            if algo in ("DDPG", "TD3", "MADDPG", "MATD3"):
+                o.update(lr_actor=1e-4 * f, lr_critic=1e-3 * f)
+            else:
+                o["lr"] = 1e-4 * f
+        return o
+
     if cfg["loop"] == "bandit":
         from gymnasium import spaces
         import numpy as np
@@ -321,9 +335,9 @@ def _build_population(cfg, E):
             pop.append(agents.algo_class(algo)(
                 spaces.Box(0.0, 1.0, benv.context_dim, np.float32), spaces.Discrete(benv.arms), index=i,
                 hp_config=agents.default_hp_config(algo), net_config=agents.default_net_config(algo, "vector"),
-                device="cpu", **over))
+                device="cpu", **hetero(i)))
         return pop, kind
-    if cfg["via"] == "create_population" and algo in ("DQN", "RainbowDQN", "DDPG", "TD3", "CQN", "PPO"):
+    if cfg["via"] == "create_population" and not (cfg["ls_spread"] or cfg["bs_spread"] or cfg["lr_spread"]) and algo in ("DQN", "RainbowDQN", "DDPG", "TD3", "CQN", "PPO"):
         from agilerl.utils.utils import create_population
         init_hp = {"BATCH_SIZE": cfg["batch_size"], "LEARN_STEP": cfg["learn_step"], "NUM_ATOMS": 5,
                    "V_MIN": -2.0, "V_MAX": 2.0, "UPDATE_EPOCHS": 2}
@@ -334,9 +348,8 @@ def _build_population(cfg, E):
             population_size=cfg["pop"], num_envs=ne, device="cpu")
         return pop, kind
     for i in range(cfg["pop"]):
-        over["learn_step"] = cfg["learn_step"] + i * cfg["ls_spread"]     # agents may start with different learn steps
         pop.append(agents.build(algo, fam, seed=cfg["seed"] + i, index=i, action_kind=kind,
-                                hp_config=agents.default_hp_config(algo), **over))
+                                hp_config=agents.default_hp_config(algo), **hetero(i)))
     return pop, kind
 
 
@@ -999,6 +1012,43 @@ def judge(chk: Check, res: dict):
     return problems, diff, ops, impl, model
 
 
+DEFAULT_KIND = {"DQN": "discrete", "RainbowDQN": "discrete", "CQN": "discrete", "NeuralUCB": "discrete",
+                "NeuralTS": "discrete", "DDPG": "box", "TD3": "box", "PPO": "discrete", "IPPO": "discrete",
+                "MADDPG": "discrete", "MATD3": "discrete"}
+
+
+def finding_class(cfg: dict) -> str | None:
+    """the open known finding a configuration runs into by construction (such configurations are probed
+    once, through chk.finding, and are never generated, shrunk into, or reported as something else)"""
+    c = full(cfg)
+    kind = c["kind"] or DEFAULT_KIND[c["algo"]]
+    lp = c["loop"]
+    if lp in ("off", "maoff") and c["evo_steps"] < (c["num_envs"] or 1):
+        return "C20-zero-iteration-generation-hangs"
+    if lp in ("off", "offline") and c["num_envs"] is None:
+        return "C20-off-policy-plain-env-eval"
+    if lp == "on" and c["num_envs"] is None:
+        return "C20-on-policy-plain-env-dones"
+    if kind == "multidiscrete" and c["algo"] in ("DQN", "RainbowDQN", "CQN", "MADDPG", "MATD3"):
+        return "C20-multidiscrete-flat-action"
+    if kind == "discrete" and c["algo"] in ("MATD3", "IPPO"):
+        return "C20-ma-discrete-action-axis"
+    if lp in ("off", "offline") and c["family"] == "tuple":
+        return "C20-tuple-obs-replay"
+    if lp == "offline" and c["family"] == "discrete":
+        return "C20-offline-scalar-observation"
+    return None
+
+
+def signature(problem: str) -> str:
+    """what kind of failure a problem line reports (numbers and call prefixes removed)"""
+    import re
+    p = re.sub(r"^call \d+ \(max_steps=\d+\): ", "", problem)
+    if " raised " in p:
+        return "raised " + p.split(" raised ", 1)[1].split(":", 1)[0]
+    return re.sub(r"[-\d\[\], .]+", "#", p)[:48]
+
+
 def shrink(chk: Check, pool: Pool, cfg: dict, still_fails) -> dict:
     """greedy delta debugging over configuration dimensions: reset to the baseline value whatever can
     be reset while the failure persists (at most 14 further runs)"""
@@ -1012,6 +1062,8 @@ def shrink(chk: Check, pool: Pool, cfg: dict, still_fails) -> dict:
             continue
         cand = dict(cur)
         cand[k] = BASE[k]
+        if finding_class(cand) is not None:      # never shrink into the territory of a known finding
+            continue
         budget -= 1
         r = pool.map([("shrink", cand)])["shrink"]
         try:
@@ -1082,9 +1134,16 @@ def run_cases(chk: Check, pool: Pool, cases: list[dict], suite: str, expect_dete
             continue
         ndiff += diff is not None
 
-        def still_fails(r, had_problem=bool(problems)):
-            p, d, *_ = judge(chk, r)
-            return bool(p) if had_problem else d is not None
+        fid = finding_class(res["cfg"])
+        if fid is not None and problems:
+            # by construction this configuration can only show that known finding: route it there
+            chk.finding(fid, problems[0], {"cfg": res["cfg"], "status": res["status"], "exc": res.get("exc"),
+                                           "where": res.get("where")})
+            continue
+
+        def still_fails(r, had_problem=bool(problems), sig=signature(problems[0]) if problems else None):
+            p, d, *_ = judge(chk, r)          # the *same kind* of failure must persist
+            return any(signature(x) == sig for x in p) if had_problem else (d is not None and not p)
         small = shrink(chk, pool, res["cfg"], still_fails)
         r2 = pool.map([("final", small)])["final"]
         p2, d2, ops2, impl2, model2 = judge(chk, r2)
